@@ -2,6 +2,9 @@
 PROPS = {
     "C07": ["u_hier"],
     "C02": ["u_tables"],
+    "C15": ["u_dream"],
+    "C19": ["u_graddesc"],
+    "C17": ["u_surrogate"],
 }
 COMMON_ASSUME = [
     "CBMC 6.11 and its C semantics are trusted; double is IEEE-754 binary64 round-to-nearest",
@@ -19,6 +22,15 @@ PROP_META = {
   "level_text": "Proof of a stated part: the declared 1-D quadrature exactness (getQExact) never exceeds an independent theoretical bound of the rule, for all 39 non-custom rules + Fourier and all levels without int overflow; point counts strictly increase. The weights, tensor assembly and integrate() are not decided.",
   "level_note": "Trusted: CBMC, tsg2c, the theory table in contracts/tables.c (cross-checked natively on levels 0-6). Not decided: nodes/weights (eigen-solves, cos), computeTensorWeights, integrate, custom/exotic rules, domain transforms (C10).",
   "assumptions": COMMON_ASSUME, "not_decided": ["1-D nodes and weights", "computeTensorWeights / tensor assembly", "integrate()", "custom tabulated and exotic rules"],
+ },
+ "C15": {
+  "level_text": "pending", "level_note": "pending", "assumptions": COMMON_ASSUME, "not_decided": [],
+ },
+ "C19": {
+  "level_text": "pending", "level_note": "pending", "assumptions": COMMON_ASSUME, "not_decided": [],
+ },
+ "C17": {
+  "level_text": "pending", "level_note": "pending", "assumptions": COMMON_ASSUME, "not_decided": [],
  },
 }
 PENDING = "not built yet in this round (planned, see DESIGN.md section 8); no check is registered, so nothing is claimed"
